@@ -800,7 +800,7 @@ func c13Replay(pl json.RawMessage) (string, []core.Violation) {
 func init() {
 	core.Register(&core.PropSpec{
 		ID: "C13", Level: "model_checking",
-		Rule:     "mode product: every token sequence <= n (4 quick, 5 thorough) in space and LF layouts and every statement-family program (simple statements covering each ASI-relevant first token, compound forms with brace-less/block bodies, nested function expressions) in every layout with <= k deviations (k=1 quick, 2 thorough) is parsed in the 4 mode combinations: strict-accepted => tolerant yields the identical tree dump (positions, flags, comments) and no errors; without a line-initial ( or [ the smart flag changes nothing (tree, acceptance, error count); with one, smart == default on the text with ';' inserted before each line-initial INFIX bracket (prefix-position brackets unchanged); on rejected inputs tolerant reports the same first error as strict unless that error is a missing separator or an unclosed block; every fused statement pair (separator dropped, next token cannot continue) and every removal of a trailing run of statement-level closing braces is accepted by tolerant mode with the tree of the intact program. states = distinct states of the mode product (acceptance, error count and tree shape in each of the 4 modes), transitions = parses executed Added: clause B also in tolerant+smart mode; open blocks also without the last / without all semicolons; multi-line tokens followed by ( [ . in 11 templates x 4 literals; the scale family; every result also on long-lived builders that carry an unused language extension; clause E: every history of <= 4 option calls {WithTolerantMode(true|false), WithSmartSemicolon(true|false)} on a fresh builder (a parser built in the middle) gives the parser of the mode the last calls name, on 6 probes that tell the modes apart. Plugin language (round 12/13, clause P): the clause-A mode product on the subset extended by three plugin statement kinds parsed with ExpectToken / ParseStatement / ParseBlockStatement / ExpectSemicolonASI: all token sequences <= 3 (4) with a plugin keyword in two joinings, 400 programs in 4 layouts (blanks, a line break in every gap, separators by line break only, separators dropped).",
+		Rule:     "mode product: every token sequence <= n (4 quick, 5 thorough) in space and LF layouts and every statement-family program (simple statements covering each ASI-relevant first token, compound forms with brace-less/block bodies, nested function expressions) in every layout with <= k deviations (k=1 quick, 2 thorough) is parsed in the 4 mode combinations: strict-accepted => tolerant yields the identical tree dump (positions, flags, comments) and no errors; without a line-initial ( or [ the smart flag changes nothing (tree, acceptance, error count); with one, smart == default on the text with ';' inserted before each line-initial INFIX bracket (prefix-position brackets unchanged); on rejected inputs tolerant reports the same first error as strict unless that error is a missing separator or an unclosed block; every fused statement pair (separator dropped, next token cannot continue) and every removal of a trailing run of statement-level closing braces is accepted by tolerant mode with the tree of the intact program. states = distinct states of the mode product (acceptance, error count and tree shape in each of the 4 modes), transitions = parses executed Added: clause B also in tolerant+smart mode; open blocks also without the last / without all semicolons; multi-line tokens followed by ( [ . in 11 templates x 4 literals; the scale family; every result also on long-lived builders that carry an unused language extension; clause E: every history of <= 4 option calls {WithTolerantMode(true|false), WithSmartSemicolon(true|false)} on a fresh builder (a parser built in the middle) gives the parser of the mode the last calls name, on 6 probes that tell the modes apart. Plugin language (round 12/13, clause P): the clause-A mode product on the subset extended by three plugin statement kinds parsed with ExpectToken / ParseStatement / ParseBlockStatement / ExpectSemicolonASI: all token sequences <= 3 (4) with a plugin keyword in two joinings, 400 programs in 4 layouts (blanks, a line break in every gap, separators by line break only, separators dropped). Added (round 14): clause C on token sequences - every sequence <= 3 (4 over the class alphabet; full alphabet in thorough) with a bracket that is not its first token, a line break in front of every such bracket, 2 layouts x strict/tolerant, against default mode on the text with a semicolon in front of every bracket that follows an identifier, literal, ) or ].",
 		Assume:   []string{"bracket roles (infix vs prefix position) come from the harness unparser, cross-checked against goja by C02"},
 		QuickSec: 400, ThorSec: 3000, Run: c13Run, Replay: c13Replay,
 		Evals: "inputs", Nontriv: "accepted_programs", States: "distinct_mode_product_states", Trans: "mode_parses",
